@@ -1357,6 +1357,68 @@ Theorem C03_p_sl_check_all_good :
 Proof. exact p_sl_check_all_good. Qed.
 Print Assumptions C03_p_sl_check_all_good.
 
+(* the same with NO hypothesis for a program with an RMW (message passing with a release store, fetch_add(AcqRel) and relaxed loads), for the atomic the RMW acts on: all 72 iterations *)
+Theorem C03_p_mp_all_good :
+  forall (pa : path) (e : exec),
+       Explored 2000 p_mp (initial_path cfgT) pa -> steps (init_exec p_mp pa) e -> GoodAt 0 e.
+Proof. exact p_mp_all_good. Qed.
+Print Assumptions C03_p_mp_all_good.
+
+(* RMW atomicity in every reachable state of every iteration of it *)
+Theorem C03_p_mp_atomicity :
+  forall (pa : path) (e : exec) (s : atomic_state) (r sl sid : nat),
+       Explored 2000 p_mp (initial_path cfgT) pa ->
+       steps (init_exec p_mp pa) e ->
+       get_atomic e 0 = Some s ->
+       r < at_cnt s ->
+       st_rmw_src (get_store s r) = Some (sl, sid) ->
+       sl < at_cnt s /\
+       vv_lt (mo s sl) (mo s r) = true /\
+       (forall x : nat, x < at_cnt s -> vv_lt (mo s sl) (mo s x) && vv_lt (mo s x) (mo s r) = false).
+Proof. exact p_mp_atomicity. Qed.
+Print Assumptions C03_p_mp_atomicity.
+
+(* coherence between any two states of any iteration of it *)
+Theorem C03_p_mp_coherence :
+  forall (pa : path) (e e' : exec) (s : atomic_state) (t i j : nat),
+       Explored 2000 p_mp (initial_path cfgT) pa ->
+       steps (init_exec p_mp pa) e ->
+       steps e e' ->
+       get_atomic e 0 = Some s ->
+       t < MAX_THREADS ->
+       i < at_cnt s ->
+       j < at_cnt s ->
+       vv_lt (mo s i) (mo s j) = true ->
+       is_seen_by_current (st_seen (get_store s j)) (caus_of e t) = true ->
+       exists s' : atomic_state,
+         get_atomic e' 0 = Some s' /\
+         (forall (ly : option nat) (o : ord) (l : list nat),
+          match_load_to_stores s' t (vv_inc (caus_of e' t) t) ly o = Some l -> ~ In i l) /\
+         (forall l : list nat, match_rmw_to_stores s' = Some l -> ~ In i l).
+Proof. exact p_mp_coherence. Qed.
+Print Assumptions C03_p_mp_coherence.
+
+(* a reachable state of it really contains a live RMW store (slot 2, source slot 1) *)
+Theorem C03_e_mp_rmw_store :
+  exists (s : atomic_state) (sid : nat),
+         get_atomic e_mp 0 = Some s /\ at_cnt s = 3 /\ st_rmw_src (get_store s 2) = Some (1, sid).
+Proof. exact e_mp_rmw_store. Qed.
+Print Assumptions C03_e_mp_rmw_store.
+
+(* and the atomicity conclusion instantiated at that state: the source is mo-before the RMW store and no live store is between them *)
+Theorem C03_p_mp_atomicity_instance :
+  exists (s : atomic_state) (sid : nat),
+         steps (init_exec p_mp (initial_path cfgT)) e_mp /\
+         get_atomic e_mp 0 = Some s /\
+         2 < at_cnt s /\
+         st_rmw_src (get_store s 2) = Some (1, sid) /\
+         1 < at_cnt s /\
+         vv_lt (mo s 1) (mo s 2) = true /\
+         (forall x : nat,
+          x < at_cnt s -> vv_lt (mo s 1) (mo s x) && vv_lt (mo s x) (mo s 2) = false).
+Proof. exact p_mp_atomicity_instance. Qed.
+Print Assumptions C03_p_mp_atomicity_instance.
+
 (* one concrete reachable access at which every clause of SideOK holds non-trivially: a candidate list of length >= 2, the replayed index in it, three stores in the ring *)
 Theorem C03_side_instance :
   steps (init_exec p_sl (initial_path cfgT)) e17 /\
